@@ -99,6 +99,15 @@ func cmdFaultsGrpc(args []string) error {
 		allObs = append(allObs, "OCheck None")
 		calls++
 	}
+	for _, c := range []string{
+		fmt.Sprintf("SCheck %s %s", coqStr("StreamingPull"), coqMap(map[string]string{subSvc: "StreamingPull"})),
+		fmt.Sprintf("SCheck %s %s", coqStr("StreamingPull:RecvMsg"), coqMap(nil)),
+		fmt.Sprintf("SCheck %s %s", coqStr("StreamingPull:RecvMsg"), coqMap(expectedParams(subSvc, "StreamingPull", first))),
+	} {
+		allOps = append(allOps, c)
+		allObs = append(allObs, "OCheck None")
+		calls++
+	}
 	for sc := 0; sc < *n; sc++ {
 		// add 1-2 descriptions
 		for k := 0; k < 1+r.Intn(2); k++ {
@@ -278,11 +287,97 @@ func cmdFaultsGrpc(args []string) error {
 	c := fmt.Sprintf("(0%%nat, ([%s], [%s]))", strings.Join(allOps, "; "), strings.Join(allObs, "; "))
 	samples = append(samples, c[:600])
 	b.WriteString(c)
+	c2, f2, err := fieldlessMessageCase()
+	if err != nil {
+		return err
+	}
+	calls += 4
+	failed += f2
+	b.WriteString(";\n" + c2)
 	b.WriteString("].\nDefinition bad := Eval vm_compute in map fst (filter (fun c => negb (chk [] (fst (snd c)) (snd (snd c)))) cases).\nPrint bad.\n")
 	if err := os.WriteFile(filepath.Join(*out, "faults_grpc.v"), []byte(b.String()), 0o644); err != nil {
 		return err
 	}
 	return writeJSON(filepath.Join(*out, "faults_grpc.json"), map[string]interface{}{"scenarios": *n, "calls": calls, "failed_calls": failed, "samples": samples})
+}
+
+// fieldlessMessageCase: a fresh server; a stream is opened against the empty fault set; then a fault
+// naming only service -> method (a documented, matchable parameter of every call) is added for
+// received stream messages, and a message WITHOUT any string field arrives (what an ack-only or
+// deadline-only request looks like): its parameters are exactly service -> method, it matches, it
+// is failed - exactly once
+func fieldlessMessageCase() (string, int, error) {
+	e, err := NewEnv(true)
+	if err != nil {
+		return "", 0, err
+	}
+	defer e.Close()
+	ctx := context.Background()
+	subSvc := "google.pubsub.v1.Subscriber"
+	topic, sub := "projects/p/topics/fl", "projects/p/subscriptions/fl"
+	if _, err := e.Pub.CreateTopic(ctx, &pubsubpb.Topic{Name: topic}); err != nil {
+		return "", 0, err
+	}
+	if _, err := e.Sub.CreateSubscription(ctx, &pubsubpb.Subscription{Name: sub, Topic: topic}); err != nil {
+		return "", 0, err
+	}
+	sctx, cancel := context.WithCancel(ctx)
+	defer cancel()
+	st, err := e.Sub.StreamingPull(sctx)
+	if err != nil {
+		return "", 0, err
+	}
+	first := &pubsubpb.StreamingPullRequest{Subscription: sub, StreamAckDeadlineSeconds: 10}
+	if err := st.Send(first); err != nil {
+		return "", 0, err
+	}
+	time.Sleep(200 * time.Millisecond)
+	ops := []string{
+		fmt.Sprintf("SCheck %s %s", coqStr("StreamingPull"), coqMap(map[string]string{subSvc: "StreamingPull"})),
+		fmt.Sprintf("SCheck %s %s", coqStr("StreamingPull:RecvMsg"), coqMap(nil)),
+		fmt.Sprintf("SCheck %s %s", coqStr("StreamingPull:RecvMsg"), coqMap(expectedParams(subSvc, "StreamingPull", first))),
+	}
+	obs := []string{"OCheck None", "OCheck None", "OCheck None"}
+	d := fdesc{Op: "StreamingPull:RecvMsg", Params: map[string]string{subSvc: "StreamingPull"}, Count: 1}
+	e.Faults.Add(faults.Description{Operation: d.Op, Parameters: d.Params, Count: d.Count, FaultDescription: "0",
+		OnFault: func(dd faults.Description, _ faults.Parameters) error {
+			return status.Errorf(codes.DataLoss, "F:%d:%d", 0, dd.Count)
+		}})
+	ops = append(ops, "SAdd "+coqDesc(d))
+	obs = append(obs, "OUnit")
+	plain := &pubsubpb.StreamingPullRequest{StreamAckDeadlineSeconds: 10}
+	if err := st.Send(plain); err != nil {
+		return "", 0, err
+	}
+	done := make(chan error, 1)
+	go func() {
+		for {
+			if _, err := st.Recv(); err != nil {
+				done <- err
+				return
+			}
+		}
+	}()
+	var rerr error
+	select {
+	case rerr = <-done:
+	case <-time.After(1500 * time.Millisecond):
+	}
+	ops = append(ops, fmt.Sprintf("SCheck %s %s", coqStr("StreamingPull:RecvMsg"), coqMap(expectedParams(subSvc, "StreamingPull", plain))))
+	o, failed := "OCheck None", 0
+	if s, ok := status.FromError(rerr); ok && rerr != nil && s.Code() == codes.DataLoss {
+		msg := s.Message()
+		if i := strings.LastIndex(msg, "F:"); i >= 0 {
+			msg = msg[i:]
+		}
+		var fi, rem int64
+		if n, _ := fmt.Sscanf(msg, "F:%d:%d", &fi, &rem); n == 2 {
+			o = fmt.Sprintf("OCheck (Some (%d%%nat, %s))", fi, coqZ(rem))
+			failed = 1
+		}
+	}
+	obs = append(obs, o)
+	return fmt.Sprintf("(1%%nat, ([%s], [%s]))", strings.Join(ops, "; "), strings.Join(obs, "; ")), failed, nil
 }
 
 func init() { subcmds["faults-grpc"] = cmdFaultsGrpc }
